@@ -1,5 +1,7 @@
 import Netpoll.ServerLemmas
 import Netpoll.ServerProgress
+import Netpoll.ServerRetry
+import Netpoll.Gen.Server
 /-!
 C13 – the server tracks every accepted connection and shuts down gracefully.
 
@@ -394,5 +396,50 @@ theorem C13_second_episode_busy_loop (n : Nat) :
       simp [step, stepAccept, hran, hln, S.detachLn, hd]
     · simp only []; omega
     · simp only []; omega
+
+/-! ### the back-off goroutine's own loop (delay table and index) -/
+
+/-- Descriptor exhaustion of ANY length: whatever accept returns and for however long (every script of results,
+    `k` consecutive EMFILE for every `k` included), the back-off goroutine never indexes outside its delay table –
+    it does not panic – and it is still retrying or has re-registered the listener.  This is what lets
+    `Netpoll.Server` treat a failed retry as a step that changes nothing (`stepAccept … true .emfile = some s`). -/
+theorem C13_retry_index_in_table (rs : List AccRes) :
+    Retry.run .succLt Netpoll.Gen.Server.server_OnRead_retryTable 0 rs = .ended ∨
+    ∃ i, Retry.run .succLt Netpoll.Gen.Server.server_OnRead_retryTable 0 rs = .running i ∧
+         i < Netpoll.Gen.Server.server_OnRead_retryTable.length :=
+  Retry.run_no_panic rs (by decide)
+
+example : Retry.run .succLt Netpoll.Gen.Server.server_OnRead_retryTable 0 (List.replicate 9 .emfile) = .running 6 := by decide
+
+/-- … and after a stretch of `k` failures, for every `k`, the first successful accept is taken by the goroutine
+    (index back to the start of the table) and the first EAGAIN re-registers the listener and ends it. -/
+theorem C13_retry_resumes_after_any_stretch (k fd : Nat) :
+    Retry.run .succLt Netpoll.Gen.Server.server_OnRead_retryTable 0 (List.replicate k .emfile ++ [.conn fd]) = .running 0 ∧
+    Retry.run .succLt Netpoll.Gen.Server.server_OnRead_retryTable 0 (List.replicate k .emfile ++ [.conn fd, .eagain]) = .ended ∧
+    Retry.run .succLt Netpoll.Gen.Server.server_OnRead_retryTable 0 (List.replicate k .emfile ++ [.eagain]) = .ended :=
+  Retry.stretch_then_resumes (by decide) k fd
+
+example : Retry.run .succLt Netpoll.Gen.Server.server_OnRead_retryTable 0
+    (List.replicate 12 .emfile ++ [.conn 9, .eagain]) = .ended := by decide
+
+/-- every delay the goroutine sleeps is an entry of the table (at most one second: the goroutine notices the end
+    of the exhaustion within the largest entry) -/
+theorem C13_retry_delay_bounded (rs : List AccRes) :
+    ∀ d ∈ Retry.delays .succLt Netpoll.Gen.Server.server_OnRead_retryTable 0 rs, d ≤ 1000 := by
+  intro d hd
+  rcases Retry.delays_mem rs (by decide) d hd with h | h
+  · omega
+  · have hall : ∀ x ∈ Netpoll.Gen.Server.server_OnRead_retryTable, x ≤ 1000 := by decide
+    exact hall d h
+
+example : Retry.delays .succLt Netpoll.Gen.Server.server_OnRead_retryTable 0 (List.replicate 9 .emfile) =
+    [0, 10, 50, 100, 200, 500, 1000, 1000, 1000] := by decide
+
+/-- why the guard must be `index+1 < len`: with `index < len` the index leaves the table on the failure that
+    follows the last entry (the 7th failed retry = 8th failed accept), and the goroutine panics with the listener
+    detached -/
+theorem C13_retry_loose_guard_panics_witness :
+    Retry.run .lt Netpoll.Gen.Server.server_OnRead_retryTable 0 (List.replicate 6 .emfile) = .running 6 ∧
+    Retry.run .lt Netpoll.Gen.Server.server_OnRead_retryTable 0 (List.replicate 7 .emfile) = .panic := by decide
 
 end Netpoll.Props.C13
